@@ -26,6 +26,12 @@ Streams
  (c) `heuristic-log` / `heuristic-solves`: "trace" / "logdetN" on both paths: call logs vs. model (scripted solves; the
      logdet weights are RECOMPUTED by the harness from the logged Gram matrices with pep.py's own formula and must be
      emitted entry by entry) and real solves.
+ (d) `heuristic-objectives`: for EVERY solve of a trace / logdet2 / logdet3 run, the objective each back-end actually hands
+     to its solver -- cvxpy: `prob.objective` at solve time through a recording hook on cp.Problem.solve, parameters at
+     their current value; MOSEK: the c / putbarcj state of the stand-in task at optimize -- against the model's W_k
+     (pep.py's formula on that back-end's previous Gram matrix; this is the <W,G> objective of Model.Mosek.sdp_heur /
+     theorem C11_heuristic); on seed C11-8's polygon model the Gram matrices returned by both back-ends after
+     trace / logdet2 / logdet3 must agree within 1e-3.
 The only open finding is F-C11d (getprosta ignored), identified by its specific trigger (known_findings.d/C11.json)."""
 import json
 import os
@@ -121,7 +127,7 @@ def _ex(P, X, spec):
 
 def build(spec):
     """fresh PEP from a JSON-able spec, deterministically; returns (pep, funcs)"""
-    from PEPit import PEP, Expression, PSDMatrix
+    from PEPit import PEP, Expression, PSDMatrix, Point
     p = PEP()
     funcs = []
     for fd in spec["funcs"]:
@@ -147,6 +153,8 @@ def build(spec):
     for op in spec["ops"]:
         if op[0] == "leaf":
             X.append(Expression())
+        elif op[0] == "point":
+            P.append(Point())
         elif op[0] == "lmi":
             rows = [[_ex(P, X, e) for e in r] for r in op[2]]
             if op[1] == "pep":
@@ -843,6 +851,9 @@ def compare_paths(spec, obs, heuristic=None):
     dg = float(np.max(np.abs(a["gram"] - b["gram"]))) if a["gram"].size else 0.0
     stats.update(dual_diff=dd, lmi_dual_diff=dl, residual_diff=dr, gram_diff=dg,
                  agree=bool(max(dd, dl, dr) <= TOL and (heuristic or dg <= TOL)))
+    if spec.get("require_equal_gram") and dg > TOL:
+        probs.append(dict(kind="primal-instance-differs", cvxpy_gram=a["gram"].tolist(), mosek_gram=b["gram"].tolist(),
+                          gram_diff=dg, **base))
     if len(a["duals"]) != len(b["duals"]) or len(a["lmi_duals"]) != len(b["lmi_duals"]):
         probs.append(dict(kind="constraint-lists-differ", **base))
     return probs, stats
@@ -898,6 +909,187 @@ def stream_heuristic_solves(tier, seed):
                 rule="the tests/test_wrappers.py model re-solved with each dimension-reduction heuristic on both paths",
                 samples=samples[:2], n_mismatch=0, mismatches=[], problems=problems, n_problems=len(problems),
                 distribution=dict(stats=st))
+
+
+# ------------------------------------------------------------------------------------------ heuristic objectives
+def polygon_spec():
+    """seed C11-8's model: two orthogonal points x, y; polygonal feasible set for (a, b) = (|x|^2, |y|^2) (tangents to
+    b = a^(-1/2), b >= 0.45, a, b <= 8); objective independent of the Gram matrix.  Every logdet step is an LP whose
+    solution is a well separated vertex: the heuristic alone selects the returned Gram matrix."""
+    A, B = ["sq", [[1, 0]]], ["sq", [[1, 1]]]
+    ops = [["point"], ["leaf"], ["cons", "pep", ["ip", [[1, 0]], [[1, 1]]], "==", ["const", 0]]]
+    for k in range(-4, 5):
+        a_i = 2. ** (k / 2)
+        phi, dphi = a_i ** (-.5), -.5 * a_i ** (-1.5)
+        ops.append(["cons", "pep", ["lin", [[1, B], [-dphi, A]]], ">=", ["const", phi - dphi * a_i]])
+    ops += [["cons", "pep", B, ">=", ["const", .45]], ["cons", "pep", A, "<=", ["const", 8]],
+            ["cons", "pep", B, "<=", ["const", 8]], ["cons", "pep", ["x", 0], "<=", ["const", 1]]]
+    return dict(funcs=[], steps=0, gamma=1.0, ops=ops, metrics=[["x", 0]], require_equal_gram=True)
+
+
+def _objective_data(prob, G, F):
+    """the objective of a cvxpy Problem as data, parameters at their CURRENT value: (sense, symmetric matrix C with
+    objective = sum_ab C[a,b] G[a,b] for symmetric G, vector f, constant) -- by evaluating the objective expression at
+    the unit (symmetric) matrices; None entries when the expression has no value (a Parameter without value)"""
+    expr = prob.objective.args[0]
+    n, m = G.shape[0], F.shape[0]
+    for v in prob.variables():
+        v.value = np.zeros(v.shape)
+    c0 = expr.value
+    if c0 is None:
+        return dict(sense=type(prob.objective).__name__, C=None, f=None, const=None)
+    C = np.zeros((n, n))
+    for a in range(n):
+        for b in range(a + 1):
+            E = np.zeros((n, n))
+            E[a, b] = E[b, a] = 1.0
+            G.value = E
+            v = float(expr.value) - float(c0)
+            C[a, b] = C[b, a] = v if a == b else v / 2
+    G.value = np.zeros((n, n))
+    f = np.zeros(m)
+    for k in range(m):
+        e = np.zeros(m)
+        e[k] = 1.0
+        F.value = e
+        f[k] = float(expr.value) - float(c0)
+    F.value = np.zeros(m)
+    return dict(sense=type(prob.objective).__name__, C=C, f=f, const=float(c0))
+
+
+def cvxpy_objectives(spec, heuristic):
+    """solve on the cvxpy path with a recording hook on cp.Problem.solve: for every solve, the objective actually handed
+    to the solver (before) and the Gram matrix returned (after)"""
+    import cvxpy as cp
+    p, funcs = build(spec)
+    rec = []
+    orig = cp.Problem.solve
+
+    def hooked(self, *a, **k):
+        w = p.wrapper
+        data = _objective_data(self, w.G, w.F)
+        out = orig(self, *a, **k)
+        data["G"] = None if w.G.value is None else np.array(w.G.value)
+        rec.append(data)
+        return out
+    cp.Problem.solve = hooked
+    try:
+        kw = dict(moseklib.SCS_OPTS)
+        if heuristic:
+            kw["dimension_reduction_heuristic"] = heuristic
+        with moseklib.quiet():
+            value = p.solve(wrapper="cvxpy", verbose=0, **kw)
+    finally:
+        cp.Problem.solve = orig
+    from PEPit import Point
+    return dict(value=value, solves=rec, obj=p.objective.counter, pc=Point.counter, gram=gram_of_leaves())
+
+
+def mosek_objectives(spec, heuristic):
+    res = run_mosek(spec, heuristic=heuristic, scripted=False, tol=1e-4)
+    t = res["task"]
+    from PEPit import Point
+    grams = [_fill(ret, Point.counter) for name, a, ret in res["calls"] if name == "getbarxj" and a[1] == 0 and ret is not None]
+    return dict(value=res["value"], raised=res["raised"], solves=list(t.objective_history), grams=grams,
+                obj=res["pep"].objective.counter, pc=Point.counter,
+                gram=gram_of_leaves() if not res["raised"] else None)
+
+
+def expected_weight(heuristic, k, G_prev, pc, eig_regularization=1e-3):
+    """the weight of heuristic call k (1-based) as pep.py computes it from the previous Gram matrix"""
+    from PEPit import PEP
+    if heuristic == "trace":
+        return np.identity(pc)
+    _, _, corrected = PEP.get_nb_eigenvalues_and_corrected_matrix(G_prev)
+    return np.linalg.inv(corrected + eig_regularization * np.eye(pc))
+
+
+def objectives_case(spec, heur, mname, dist):
+    """one run: returns (problems, sample)"""
+    problems = []
+    base = dict(spec=spec, heuristic=heur, model=mname)
+    try:
+        cv = cvxpy_objectives(spec, heur)
+        mo = mosek_objectives(spec, heur)
+    except Exception:
+        problems.append(dict(kind="harness-crashed", error=traceback.format_exc()[-1200:], **base))
+        return problems, None
+    if mo["raised"]:
+        problems.append(dict(kind="mosek-path-raised", raised=list(mo["raised"]), **base))
+        return problems, None
+    ncalls = 1 if heur == "trace" else int(heur[6:])
+    if len(cv["solves"]) != ncalls + 1 or len(mo["solves"]) != ncalls + 1:
+        problems.append(dict(kind="number-of-solves-differs", cvxpy=len(cv["solves"]), mosek=len(mo["solves"]),
+                             expected=ncalls + 1, **base))
+        return problems, None
+    pc = cv["pc"]
+    # solve 0: maximise the objective leaf on both paths
+    s0c, s0m = cv["solves"][0], mo["solves"][0]
+    ok0 = (s0c["sense"] == "Maximize" and s0c["C"] is not None and np.max(np.abs(s0c["C"])) < 1e-12
+           and np.allclose(s0c["f"], np.eye(len(s0c["f"]))[cv["obj"]], atol=1e-12)
+           and s0m["sense"] == "maximize" and [(j, v) for j, v in s0m["c"] if v != 0] == [(mo["obj"], 1.0)]
+           and all(np.max(np.abs(M)) == 0 for M in s0m["barc"].values()))
+    if not ok0:
+        problems.append(dict(kind="first-objective-differs", cvxpy=jsonable(s0c), mosek=jsonable(s0m), **base))
+    for k in range(1, ncalls + 1):
+        dist["calls"] += 1
+        # cvxpy: its own previous Gram matrix -> W_k ; objective handed over at call k
+        Wc = expected_weight(heur, k, cv["solves"][k - 1]["G"], pc)
+        sc = cv["solves"][k]
+        scale = max(1.0, float(np.max(np.abs(Wc))))
+        if sc["C"] is None or sc["sense"] != "Minimize":
+            problems.append(dict(kind="heuristic-objective-differs", path="cvxpy", call=k, got=jsonable(sc), **base))
+        else:
+            dev = float(np.max(np.abs(sc["C"] - (Wc + Wc.T) / 2))) / scale
+            devf = float(np.max(np.abs(sc["f"]))) if len(sc["f"]) else 0.0
+            dist["max_cvxpy_dev"] = max(dist["max_cvxpy_dev"], dev)
+            if dev > 1e-9 or devf > 1e-12:
+                problems.append(dict(kind="heuristic-objective-differs", path="cvxpy", call=k, relative_deviation=dev,
+                                     objective_matrix=sc["C"].tolist(), model_weight=Wc.tolist(),
+                                     leaf_coefficients=sc["f"].tolist(), **base))
+        # mosek: same, from the stand-in task (lower triangle of W_k, mirrored; c all zero)
+        Wm = expected_weight(heur, k, mo["grams"][k - 1], pc)
+        sm = mo["solves"][k]
+        Dm = np.tril(Wm) + np.tril(Wm, -1).T
+        got = sm["barc"].get(0, np.zeros((pc, pc)))
+        devm = float(np.max(np.abs(got - Dm))) / max(1.0, float(np.max(np.abs(Wm))))
+        dist["max_mosek_dev"] = max(dist["max_mosek_dev"], devm)
+        if sm["sense"] != "minimize" or devm > 0 or any(v != 0 for j, v in sm["c"]) \
+                or any(np.max(np.abs(M)) != 0 for j, M in sm["barc"].items() if j != 0):
+            problems.append(dict(kind="heuristic-objective-differs", path="mosek", call=k, relative_deviation=devm,
+                                 objective_matrix=np.array(got).tolist(), model_weight=Wm.tolist(),
+                                 c=jsonable(sm["c"]), sense=sm["sense"], **base))
+    dg = float(np.max(np.abs(cv["gram"] - mo["gram"])))
+    dist["gram_diff"]["%s/%s" % (mname, heur)] = round(dg, 7)
+    if abs(cv["value"] - mo["value"]) > TOL:
+        problems.append(dict(kind="value-differs", cvxpy=cv["value"], mosek=mo["value"], **base))
+    if spec.get("require_equal_gram") and dg > TOL:
+        problems.append(dict(kind="primal-instance-differs", cvxpy_gram=cv["gram"].tolist(),
+                             mosek_gram=mo["gram"].tolist(), gram_diff=dg, **base))
+    sample = dict(model=mname, heuristic=heur, cvxpy_gram=cv["gram"].tolist(), mosek_gram=mo["gram"].tolist(),
+                  cvxpy_objective_call_last=cv["solves"][-1]["C"].tolist() if cv["solves"][-1]["C"] is not None else None)
+    return problems, sample
+
+
+def stream_heuristic_objectives(tier, seed):
+    """for EVERY heuristic call k of a run, the objective data each back-end hands to its solver, against W_k"""
+    cur = curated_specs()
+    models = [("polygon", polygon_spec()), ("test_wrappers-lmi", cur[2]), ("gd-two-steps", cur[1]), ("three-lmis", cur[8])]
+    heurs = ["trace", "logdet2", "logdet3"]
+    problems, samples, n, dist = [], [], 0, dict(max_cvxpy_dev=0.0, max_mosek_dev=0.0, calls=0, gram_diff={})
+    for mname, spec in models:
+        for heur in (heurs if mname == "polygon" or tier != "quick" else ["logdet2"]):
+            n += 1
+            probs, sample = objectives_case(spec, heur, mname, dist)
+            problems += probs
+            if sample and len(samples) < 2:
+                samples.append(sample)
+    return dict(name="heuristic-objectives", evaluations=n, distinct_nontrivial=n,
+                rule="for every solve of a trace / logdet2 / logdet3 run: the objective of the cvxpy Problem at solve time (hook on "
+                     "cp.Problem.solve, parameters at their current value) and the objective of the stand-in task at optimize, each "
+                     "against W_k recomputed with pep.py's formula from that back-end's previous Gram matrix; on the polygon model "
+                     "(every logdet step an LP with separated vertices) the returned Gram matrices must agree within 1e-3",
+                samples=samples, n_mismatch=0, mismatches=[], problems=problems, n_problems=len(problems), distribution=dist)
 
 
 def check_numpy():
@@ -999,10 +1191,11 @@ def correspondence(tier, seed, corpus=()):
                     "row with its bound key / appendsparsesymmat + putbarcj per round, scripted solves")
     b = stream_end_to_end(tier, seed)
     d = stream_heuristic_solves(tier, seed)
+    e = stream_heuristic_objectives(tier, seed)
     bad = check_numpy()
     if bad:
         a["problems"].append(dict(kind="numpy-int8-semantics-changed", detail=bad))
-    return [r, a, c, b, d]
+    return [r, a, c, b, d, e]
 
 
 # ------------------------------------------------------------------------------------------ known findings
@@ -1083,11 +1276,20 @@ def replay(payload):
         return True
     kind = payload.get("kind")
     heur = payload.get("heuristic")
+    if payload.get("stream") == "heuristic-objectives":
+        probs, _ = objectives_case(spec, heur, payload.get("model", "replay"),
+                                   dict(max_cvxpy_dev=0.0, max_mosek_dev=0.0, calls=0, gram_diff={}))
+        return bool(probs)
     if kind in ("value-differs", "certificate-invalid", "certificate-constant-differs", "primal-instance-invalid",
                 "primal-value-differs", "path-raised", "status-ignored", "constraint-lists-differ",
                 "heuristic-objective-differs"):
         obs = solve_both(spec, heuristic=heur)
         probs, _ = compare_paths(spec, obs, heur)
+        return bool(probs)
+    if payload.get("stream") == "heuristic-objectives" or kind in ("primal-instance-differs", "first-objective-differs",
+                                                                   "number-of-solves-differs"):
+        probs, _ = objectives_case(spec, heur, payload.get("model", "replay"),
+                                   dict(max_cvxpy_dev=0.0, max_mosek_dev=0.0, calls=0, gram_diff={}))
         return bool(probs)
     inp, expected, probs, info = one_case(spec, heur)
     if probs:
